@@ -33,6 +33,9 @@ def gen_matrix(rng, U, kind):
             else:
                 v = rng.uniform(0.01, 10)
             M[a][b] = M[b][a] = v if v is not None else 0
+            if kind == "asym":
+                # a directed dissimilarity (a divergence, a travel cost): row i holds the distances FROM sample i
+                M[a][b] = rng.uniform(0.01, 10); M[b][a] = rng.uniform(0.01, 10)
     if kind == "distinct":
         vals = rng.sample(range(1, 5 * U * U + 5), U * U)
         it = iter(vals)
@@ -78,7 +81,7 @@ def run(rng, tier, res=None, want=("arcs", "pdf", "cluster")):
             res.violations.append({"property": prop, "what": m, "replay": meta})
 
     fn = lambda a, b: 0.0  # noqa  (never called: pre-computed matrices)
-    kinds = ["lattice", "lattice", "dups", "tiny", "allequal", "distinct", "distinct", "real", "real", "firstdup"]
+    kinds = ["lattice", "lattice", "dups", "tiny", "allequal", "distinct", "distinct", "real", "real", "firstdup", "asym", "asym"]
     for case in range((480 if "cluster" in want else 320) * scale):
         n = rng.choice([1, 2, 3, 4, 5, 6, 7, 8, 10, 12 if tier == "quick" else 18])
         kind = rng.choice(kinds)
@@ -169,6 +172,14 @@ def run(rng, tier, res=None, want=("arcs", "pdf", "cluster")):
         k = ks[-1]
         # ---- pdf (needs k neighbours per node) ----
         if "pdf" in want and k <= n - 1 and all(len(sg.nodes[i].adjacency) >= k for i in range(n)):
+            if rng.random() < 0.4 and len(maxd) >= 1:
+                # as the best-k search does: arcs created once for the largest k, then for a smaller k the bound is
+                # reset to that rank's maximum before the densities are estimated
+                k2 = rng.randint(1, k)
+                if float(maxd[k2 - 1]) > 0:
+                    k = k2
+                    sg.density = float(maxd[k - 1])
+                    res.hit("pdf_after_bound_reset")
             bound = sg.density
             sg.calculate_pdf(k, fn, True, M)
             const = sg.constant
